@@ -187,6 +187,8 @@ enum Ty {
     HVal,
     /// synchronous function whose body issues a (blocking) order without await
     SFun,
+    /// a Symbol kept in a variable
+    Sym,
 }
 
 #[derive(Clone)]
@@ -1533,7 +1535,23 @@ impl<'a> Gen<'a> {
                         ),
                     });
                 }
-                92..=93 if deep && self.cfg.f_symbol => {
+                92 if self.cfg.f_symbol => {
+                    // symbols kept in variables: identity, use as keys, registry
+                    self.tag("symbol-var");
+                    let syms = self.vars_of(Ty::Sym);
+                    if syms.len() >= 2 && self.rng.chance(0.6) {
+                        let a = syms[self.rng.below(syms.len())].name.clone();
+                        let b = syms[self.rng.below(syms.len())].name.clone();
+                        let o = self.fresh("o");
+                        return Node::leaf(format!(
+                            "const {o}: any = {{ p: 1, q: 2, r: 3 }}; {o}[{a}] = \"A\"; {o}[{b}] = \"B\"; __log.push(\"sy2:\" + String({a} === {b}) + Object.getOwnPropertySymbols({o}).length + String({o}[{a}]) + String(Symbol.keyFor({a})) + Object.getOwnPropertySymbols({o}).map((y: any) => String(y.description)).join(\"/\"));"
+                        ));
+                    }
+                    let y = self.fresh("y");
+                    self.declare(&y, Ty::Sym, false);
+                    return Node::leaf(format!("const {} = Symbol(\"k{}\");", y, self.rng.below(4)));
+                }
+                93 if deep && self.cfg.f_symbol => {
                     self.tag("symbol");
                     let s = self.fresh("y");
                     let o = self.fresh("o");
